@@ -30,14 +30,16 @@ let () =
       match lhs with
       | opname :: mode :: fin :: args when rhs <> [] ->
         incr total;
-        (match Ops_table.op_of_string opname with
+        (* secondary configuration (tininess after rounding): fma_ta / mul_ta are judged by expected_ta (theories/TinyAfter.v) *)
+        let ta = (match opname with "fma_ta" -> Some 0 | "mul_ta" -> Some 1 | _ -> None) in
+        (match (match ta with Some _ -> Some (OFma, `Hex) | None -> Ops_table.op_of_string opname) with
          | None -> incr unk; Printf.printf "UNKNOWN %d %s\n" !lineno line
          | Some (o, kind) ->
            let md = mode_of_int (int_of_string mode) in
            let zargs = (match kind with
              | `Hex -> List.map z_of_hex args
              | `Str -> (match args with [] -> [] | s :: _ -> bytes_of_hex s)) in
-           let e = expected o md zargs in
+           let e = (match ta with Some k -> expected_ta (Zhex.z_of_int k) md zargs | None -> expected o md zargs) in
            (match rhs with
             | "PANIC" :: _ ->
               incr pan; Printf.printf "PANIC %d %s || expected: %s\n" !lineno line (show_expect e)
